@@ -85,6 +85,19 @@ def run(ctx):
     # CLI
     phrase = "test test test test test test test test test test test junk"
     key = pyref.bip32_derive(pyref.bip39_seed(phrase, ""), [0x8000002C, 0x8000003C, 0x80000000, 0, 0])
+    seed0 = pyref.bip39_seed(phrase, "")
+    nacc = 48 if not thorough else 400
+    runs = [dict(args=[c, "--mnemonic", phrase, "--account-index", str(i)]) for i in range(nacc) for c in ("address", "public-key", "export")]
+    resm = ctx.cli(runs)
+    for i in range(nacc):
+        k = pyref.bip32_derive(seed0, [0x8000002C, 0x8000003C, 0x80000000, 0, i])
+        wants = [pyref.eip55(pyref.address_of_key(k)), "0x" + pyref.ser_uncompressed(pyref.pubkey(k)).hex(), "0x%064x" % k]
+        for j, c in enumerate(("address", "public-key", "export")):
+            r = resm[3 * i + j]
+            ctx.count("cli/%s/many-accounts" % c)
+            ctx.distinct(("cli", c, i))
+            if r.cls != "ok" or r.stdout.decode() != wants[j] + "\n":
+                ctx.violation("cli-" + c, dict(mnemonic=phrase, account_index=i), wants[j], str(r)[:300])
     res = ctx.cli([dict(args=[c, "--mnemonic", phrase]) for c in ("address", "public-key", "export")])
     want = [pyref.eip55(pyref.address_of_key(key)), "0x" + pyref.ser_uncompressed(pyref.pubkey(key)).hex(), "0x%064x" % key]
     for c, r, w in zip(("address", "public-key", "export"), res, want):
